@@ -4,7 +4,7 @@ sys.path.insert(0, os.path.join(os.path.dirname(os.path.abspath(__file__)), '..'
 import vcommon as V
 
 PROPS = ['props/C16.v']
-GEN_OBLIGATIONS = ['globals_written_empty', 'globals_no_escape', 'globals_no_process_state_calls', 'globals_no_sync_state']
+GEN_OBLIGATIONS = ['globals_written_empty', 'globals_no_escape', 'globals_no_process_state_calls', 'globals_no_sync_state', 'globals_no_go_statements']
 ASSUMPTIONS = [
     "abstraction: a library call is a thread of atomic Read/Write/Local actions over a shared store indexed by the package-level "
     "variables of in_toto; all other state (arguments, locals, the files below the call's own directory, its own metadata objects) "
@@ -34,6 +34,8 @@ ASSUMPTIONS = [
     "globals_no_sync_state: none today) and channel operations on package variables; at run time every phase of every batch runs "
     "under a deadline (10 x estimated sequential time, at least 20 s, at most 90 s) and a phase that does not return is a violation of class "
     "deadlock with the blocked goroutine stacks",
+    "a library call is ONE thread of the model: the translator lists every go statement of in_toto, cmd and internal/spiffe "
+    "(pkg_go_statements, obligation globals_no_go_statements: none today); goroutines started by dependencies are not inventoried",
     "race detector: reports only races that occur in the executed interleavings; absence of a report is evidence, not proof",
 ]
 EXPLANATION = (
@@ -216,7 +218,7 @@ def _inventory(ctx):
     inv = {}
     ms = re.search(r'Definition pkg_sync_vars\b[^:]*:[^=]*:=(.*?)\.\n', txt, re.S)
     inv['pkg_sync_vars'] = re.findall(r'\(\(bs "([^"]*)"\), \(bs "([^"]*)"\)\)', ms.group(1)) if ms else None
-    for name in ('pkg_var_writes', 'pkg_var_escapes', 'pkg_init_writes', 'pkg_process_state_calls', 'pkg_init_process_state_calls'):
+    for name in ('pkg_var_writes', 'pkg_var_escapes', 'pkg_init_writes', 'pkg_process_state_calls', 'pkg_init_process_state_calls', 'pkg_go_statements'):
         m = re.search(r'Definition %s\b[^:]*:[^=]*:=(.*?)\.\n' % name, txt, re.S)
         inv[name] = re.findall(r'\(\(bs "([^"]*)"\), \(bs "([^"]*)"\), \(bs "([^"]*)"\)\)', m.group(1)) if m else None
     inv['pkg_vars'] = len(re.findall(r'\(\(bs "[^"]*"\), \(bs "[^"]*"\)\)', re.search(r'Definition pkg_vars\b.*?\]\.', txt, re.S).group(0))) \
@@ -354,20 +356,23 @@ def correspondence(ctx):
     escapes = (inv or {}).get('pkg_var_escapes') or []
     procs = (inv or {}).get('pkg_process_state_calls') or []
     syncs = (inv or {}).get('pkg_sync_vars') or []
+    gos = (inv or {}).get('pkg_go_statements') or []
     for v in corr.violations:
         v['case']['input']['translator_pkg_var_writes'] = written
         v['case']['input']['translator_pkg_process_state_calls'] = procs
         v['case']['input']['translator_pkg_sync_vars'] = syncs
-    if inv is None or written or escapes or procs or syncs:
+        v['case']['input']['translator_pkg_go_statements'] = gos
+        v['case']['input']['translator_pkg_var_escapes'] = escapes
+    if inv is None or written or escapes or procs or syncs or gos:
         # the inventory obligation does not hold for the tree under test (whatever coq/gen currently contains):
         # the theorem no longer applies to this code
         corr.disagreements.append({
             'klass': 'inventory', 'case': {'id': -1, 'input': {'pkg_var_writes': written, 'pkg_var_escapes': escapes,
-                                                             'pkg_process_state_calls': procs, 'pkg_sync_vars': syncs, 'error': inv_err}},
-            'impl': 'pkg_var_writes = %s; pkg_var_escapes = %s; pkg_process_state_calls = %s; pkg_sync_vars = %s' % (
-                json.dumps(written), json.dumps(escapes), json.dumps(procs), json.dumps(syncs)),
-            'model': 'pkg_var_writes = []; pkg_var_escapes = []; pkg_process_state_calls = []; pkg_sync_vars = [] (obligations '
-                     'globals_written_empty, globals_no_escape, globals_no_process_state_calls, globals_no_sync_state of props/C16.v)'})
+                                                             'pkg_process_state_calls': procs, 'pkg_sync_vars': syncs, 'pkg_go_statements': gos, 'error': inv_err}},
+            'impl': 'pkg_var_writes = %s; pkg_var_escapes = %s; pkg_process_state_calls = %s; pkg_sync_vars = %s; pkg_go_statements = %s' % (
+                json.dumps(written), json.dumps(escapes), json.dumps(procs), json.dumps(syncs), json.dumps(gos)),
+            'model': 'pkg_var_writes = []; pkg_var_escapes = []; pkg_process_state_calls = []; pkg_sync_vars = []; pkg_go_statements = [] (obligations '
+                     'globals_written_empty, globals_no_escape, globals_no_process_state_calls, globals_no_sync_state, globals_no_go_statements of props/C16.v)'})
     return corr
 
 
